@@ -11,12 +11,15 @@ LEVEL = "fault_enumeration"
 
 def describe(tier):
     return {
-        "rule": "every file of the C10 input family (quick: arity 1..4, <=2 entries; thorough: <=3 entries) is written once by IndxIO.save and then "
-        "truncated to EVERY length k in 0..len-1 (os.truncate, longest first); IndxIO.load must raise at each k. Plus four larger files (4-17 KiB, one of exactly one page) cut at every byte, and the file of every initial state of the C06 state graph (all dense arrays x all common values, 1-D/2-D/3-D). evaluations = crash points; "
+        "rule": "every file of the C10 input family (quick: arity 1..4, <=2 entries; thorough: <=3 entries) is written once by IndxIO.save - on an unbuffered file whose content is "
+        "snapshotted at every method call on the file object and every source line executed in indxio.py - and then (i) every content a crash can leave between two snapshots "
+        "(changed regions applied byte by byte, several regions in every order; truncations) other than the complete file, and (ii) EVERY prefix length k in 0..len-1 "
+        "(os.truncate, longest first) is handed to IndxIO.load, which must raise. Plus four larger files (4-17 KiB, one of exactly one page) cut at every byte, and the file of every initial state of the C06 state graph (all dense arrays x all common values, 1-D/2-D/3-D). evaluations = crash points; "
         "a crash point is non-trivial when it lies beyond the 16-byte header (the prefix carries a valid magic and size word). Distinct = distinct (file bytes, k).",
         "bounds": {"cut_points": "all", "files": "C10 family"},
         "exhaustive": True,
-        "assumptions": ["a crash leaves a prefix of the file (no reordering of blocks, no holes), as the statement says", "files live on tmpfs"],
+        "assumptions": ["writes reach the file in program order, and within one observed step in ascending byte order per changed region (no block reordering by the file system)",
+                        "the write path is observed at Python level (file-object method calls, source lines of indxio.py); several system calls inside one C-level call are one step", "files live on tmpfs"],
     }
 
 
@@ -40,10 +43,16 @@ def tear(keys, arrays, common, acc, only_k=None):
     case = {"keys": keys, "arrays": arrays, "common": common}
     path = os.path.join(indx.scratch_dir(), "t-%d.indx" % os.getpid())
     try:
-        blob = indx.lib_save(keys, arrays, common, path=path)
+        blob, log = indx.lib_save_logged(keys, arrays, common, path=path)
     except Exception:
         return 0, 0  # C10/C11 report save failures
     n = len(blob)
+    if only_k is None or only_k == "write-path":
+        check_write_path(log, blob, acc, case)
+        if only_k == "write-path":
+            return n, 0
+        with open(path, "wb") as f:
+            f.write(blob)
     ks = range(n - 1, -1, -1) if only_k is None else [only_k]
     if only_k is not None:
         with open(path, "wb") as f:
@@ -64,11 +73,39 @@ def tear(keys, arrays, common, acc, only_k=None):
     return n, deep
 
 
+def check_write_path(log, blob, acc, case):
+    """Crash states of the real write path that are NOT prefixes of the final file (a pre-sized file, a header patched afterwards, ...)."""
+    from catii.indxio import IndxIO
+
+    prefix_lengths, others = indx.crash_states(log, blob)
+    acc.count("write_steps_observed", len(log) - 1)
+    acc.count("non_prefix_crash_states", len(others))
+    if not others:
+        return
+    path = os.path.join(indx.scratch_dir(), "w2-%d.indx" % os.getpid())
+    for state, step in others.items():
+        with open(path, "wb") as f:
+            f.write(state)
+        with open(path, "rb") as f:
+            try:
+                res = IndxIO.load(f)
+            except Exception:
+                continue
+            ents = {kk: numpy.array(v).tolist() for kk, v in res[0].items()}
+        acc.violation("load:accepted-crash-state-of-the-write-path", dict(case, cut="write-path", step=step, state_length=len(state), length=len(blob)),
+                      "after %d of %d observed write steps a crash can leave %d bytes (not a prefix of the complete %d-byte file) that load accepts: %r" % (
+                          step, len(log) - 1, len(state), len(blob), (ents, res[1]))[:600])
+        return
+
+
 def tear_range(keys, arrays, common, acc, part, nparts):
     """Every cut point k with k % nparts == part of one (large) file."""
     from catii.indxio import IndxIO
 
     path = os.path.join(indx.scratch_dir(), "L-%d.indx" % os.getpid())
+    if part == 0:
+        blob, log = indx.lib_save_logged(keys, arrays, common, path=path)
+        check_write_path(log, blob, acc, {"keys": keys, "arrays": [[len(a)] for a in arrays], "large": True, "common": common})
     blob = indx.lib_save(keys, arrays, common, path=path)
     n = len(blob)
     cnt = 0
@@ -138,7 +175,7 @@ def replay(case, site=None):
     if case.get("large"):
         for keys, arrays, common in LARGE:
             if [tuple(k) for k in keys] == [tuple(k) for k in case["keys"]]:
-                tear_range([tuple(k) for k in keys], arrays, common, acc, case["cut"] % 8, 8)
+                tear_range([tuple(k) for k in keys], arrays, common, acc, 0 if case["cut"] == "write-path" else case["cut"] % 8, 8)
         hits = [v for v in acc.violations if v["case"]["cut"] == case["cut"]]
         for v in hits:
             print("  %s :: %s" % (v["site"], v["detail"][:300]))
